@@ -339,9 +339,21 @@ pub fn mutate_tree(rng: &mut Rng, t1: &Tree, odd: u64) -> Tree {
     let steps = 1 + rng.geometric(4);
     for _ in 0..steps {
         let keys: Vec<P> = t.keys().cloned().collect();
-        match rng.below(8) {
+        match rng.below(9) {
             0 | 1 if !keys.is_empty() => {
                 t.remove(rng.pick(&keys));
+            }
+            8 if !keys.is_empty() => {
+                // rename within the same directory: the parent is pruned and needed again
+                let k = rng.pick(&keys).clone();
+                if let Some(v) = t.remove(&k) {
+                    let mut q = k.clone();
+                    q.pop();
+                    q.push(gen_name(rng, odd));
+                    if !tree_insert(&mut t, q, v.clone()) {
+                        t.insert(k, v);
+                    }
+                }
             }
             2 if !keys.is_empty() => {
                 // change value in place (content, exec flip, retarget, file<->symlink)
